@@ -152,7 +152,18 @@ def extreme_scales(chk, found, c, tol, pid, dts=("f64", "f32")):
         if name == "MGDA":
             p2["max_iters"] = min(int(p2.get("max_iters", 100)), 20)
         base = A.impl_call(name, p2, J, dt)
+        smax = float(A.sigma_max(J))
+        nz = [abs(float(x)) for r in J for x in r if x != 0]
+        lim = {"f32": 100, "f64": 900}[dt]
         for e in (up, down):
+            import math
+            # the claim needs sigma_max above norm_eps on BOTH sides and every entry a normal number of the
+            # dtype with room for the squares taken by an SVD: matrices that were already rescaled to the
+            # norm_eps boundary or to extreme scales are not moved further (thorough run, seed 12)
+            if not nz or math.log2(max(nz)) + e > lim or math.log2(min(nz)) + e < -lim or \
+                    ("norm_eps" in p2 and smax * 2.0 ** e < 1e3 * float(p2["norm_eps"])):
+                chk.note("extreme_scale_skipped_out_of_range")
+                continue
             Js = [[x * F(2) ** e for x in r] for r in J]
             o = A.impl_call(name, p2, Js, dt)
             chk.cov["evaluations"] = chk.cov.get("evaluations", 0) + 1
